@@ -1571,6 +1571,31 @@ func ensureProjectionFrameSource(projectionQuery *pgsql.Select, frameIdentifier 
 	}}, projectionQuery.From...)
 }
 
+// applyPreviousFrameProjectionSource makes the previous frame a FROM source of the shortest-path projection
+// when the projection carries bindings of that frame through, e.g. `match (m) match p = shortestPath((a)-[*]->(b))
+// return m`. Bound endpoints and seed constraints add the source on their own; a shortest path whose endpoints
+// are both new does not, and the carried bindings would otherwise read a frame that is not in scope.
+func (s *ExpansionBuilder) applyPreviousFrameProjectionSource(projectionQuery *pgsql.Select) {
+	if s.traversalStep.Frame == nil || s.traversalStep.Frame.Previous == nil {
+		return
+	}
+
+	// The frame that the carried bindings are read from is not necessarily the immediately previous one: in a
+	// query part that ends in WITH the part's own wrapper frame sits in between.
+	for frame := s.traversalStep.Frame.Previous; frame != nil; frame = frame.Previous {
+		if frame.Binding == nil {
+			continue
+		}
+
+		for _, projectionItem := range projectionQuery.Projection {
+			if referencesIdentifier(projectionItem, frame.Binding.Identifier) {
+				ensureProjectionFrameSource(projectionQuery, frame.Binding.Identifier)
+				break
+			}
+		}
+	}
+}
+
 func (s *ExpansionBuilder) applyShortestPathSeedProjectionConstraints(projectionQuery *pgsql.Select, projectionConstraints pgsql.Expression) {
 	if projectionConstraints == nil {
 		return
@@ -1788,6 +1813,7 @@ func (s *ExpansionBuilder) buildShortestPathsHarnessCall(harnessFunctionName pgs
 
 	s.applyBoundEndpointProjectionConstraints(&projectionQuery, expansionModel)
 	s.applyShortestPathSeedProjectionConstraints(&projectionQuery, forwardSeedProjectionConstraints)
+	s.applyPreviousFrameProjectionSource(&projectionQuery)
 	s.appendUnwindSources(&projectionQuery)
 	s.applyShortestPathSelfEndpointGuard(&projectionQuery, expansionModel)
 
@@ -1881,6 +1907,7 @@ func (s *ExpansionBuilder) buildBiDirectionalShortestPathsHarnessCall(harnessFun
 
 	s.applyBoundEndpointProjectionConstraints(&projectionQuery, expansionModel)
 	s.applyShortestPathSeedProjectionConstraints(&projectionQuery, pgsql.OptionalAnd(forwardSeedProjectionConstraints, backwardSeedProjectionConstraints))
+	s.applyPreviousFrameProjectionSource(&projectionQuery)
 	s.appendUnwindSources(&projectionQuery)
 	s.applyShortestPathSelfEndpointGuard(&projectionQuery, expansionModel)
 
